@@ -110,12 +110,18 @@ def run_fuzzer(seed, procs=16, runs=20000, max_len=4096, timeout=3600):
                 ft = max(ft, int(mm.group(2)))
         findings = []
         seen = set()
+        slow_units = 0
         for d, pr in procs_l:
             adir = os.path.join(d, 'artifacts')
             for n in sorted(os.listdir(adir)):
                 path = os.path.join(adir, n)
                 c = classify_artifact(asanexe, path)
                 data = open(path, 'rb').read()
+                if c is None and n.startswith('slow-unit'):
+                    # libFuzzer's own report that an execution took long on a loaded machine; the input terminates and
+                    # is clean when run alone: a wall-clock observation, not a verdict
+                    slow_units += 1
+                    continue
                 if c is None:
                     c = ('fuzz:unreproduced:%s' % n.split('-')[0], 'libFuzzer saved %s but the input runs cleanly alone' % n)
                 key = c[0]
@@ -125,7 +131,7 @@ def run_fuzzer(seed, procs=16, runs=20000, max_len=4096, timeout=3600):
                     seen.add(key)
                     findings.append((key, c[1], data))
         return dict(executions=execs, coverage_edges=cov, features=ft, seed_corpus=ncorp, processes=procs, unfinished=unfinished,
-                    wall=time.time() - t0, findings=findings)
+                    slow_units_clean_when_run_alone=slow_units, wall=time.time() - t0, findings=findings)
     finally:
         shutil.rmtree(work, ignore_errors=True)
 
